@@ -1376,6 +1376,15 @@ func (m *machine) invoke(fr *frame, cc *ssa.CallCommon, args []AV, label string)
 		inl := target.Blocks != nil && m.w.inModule(target) && name == "" && !m.h.NoInline[fname(target)] && !m.h.NoInline[label]
 		if inl && !m.h.InlineAll && pkgOfFn(target) != pkgOfFn(m.h.Fn) {
 			inl = false
+			// a predicate or accessor of another package of the module that only reads (`doc.IsAheadOf(seqNo)`): what the
+			// oracle does not answer for is evaluated like the expression it stands for
+			if pureLeaf(target) {
+				if rs, ok := m.oracle(label, args, res); ok {
+					m.effect(label, args)
+					return rs
+				}
+				return m.call(target, args, free)
+			}
 		}
 		if inl {
 			return m.call(target, args, free)
@@ -2307,11 +2316,19 @@ func bundleArgs(w *World, fn *ssa.Function) map[string]func(st *State) AV {
 		if !isBundle(p.Type()) {
 			continue
 		}
-		al := asAlloc(argOfParam(sites[0].Call.Common(), fn, p))
-		if al == nil {
+		arg := argOfParam(sites[0].Call.Common(), fn, p)
+		var tab map[string]ssa.Value
+		if al := asAlloc(arg); al != nil {
+			tab, _ = allocTable(al)
+		} else if u, isU := unwrap(arg).(*ssa.UnOp); isU && u.Op == token.MUL {
+			// a package-level value of the module that only its initialiser writes (`var defaultPolicy = policy{5, time.Second}`)
+			if g, isG := u.X.(*ssa.Global); isG {
+				tab = globalStructInit(w, g)
+			}
+		}
+		if tab == nil {
 			continue
 		}
-		tab, _ := allocTable(al)
 		stt := p.Type().Underlying().(*types.Struct)
 		p := p
 		out[p.Name()] = func(st *State) AV {
@@ -2339,4 +2356,69 @@ func bundleArgs(w *World, fn *ssa.Function) map[string]func(st *State) AV {
 		}
 	}
 	return out
+}
+
+var pureLeafCache = map[*ssa.Function]int{}
+
+// pureLeaf: a function with results whose body only reads: loads, field and index reads, comparisons, arithmetic,
+// conversions, branches — no call, no store, no allocation that escapes, no channel operation.
+func pureLeaf(fn *ssa.Function) bool {
+	if v, ok := pureLeafCache[fn]; ok {
+		return v == 1
+	}
+	ok := fn.Blocks != nil && fn.Signature.Results().Len() >= 1 && len(fn.AnonFuncs) == 0
+	if ok {
+		allInstrs(fn, func(in ssa.Instruction) {
+			switch x := in.(type) {
+			case *ssa.UnOp:
+				if x.Op == token.ARROW {
+					ok = false
+				}
+			case *ssa.FieldAddr, *ssa.Field, *ssa.BinOp, *ssa.Phi, *ssa.If, *ssa.Jump, *ssa.Return, *ssa.Convert, *ssa.ChangeType,
+				*ssa.IndexAddr, *ssa.Index, *ssa.Extract, *ssa.DebugRef, *ssa.Lookup, *ssa.Slice:
+			default:
+				ok = false
+			}
+		})
+	}
+	if ok {
+		pureLeafCache[fn] = 1
+	} else {
+		pureLeafCache[fn] = 0
+	}
+	return ok
+}
+
+// globalStructInit: the field values the package initialiser gives a package-level struct variable of the module that
+// nothing else writes; nil when it is written anywhere else or as a whole.
+func globalStructInit(w *World, g *ssa.Global) map[string]ssa.Value {
+	if g.Pkg == nil || !strings.HasPrefix(g.Pkg.Pkg.Path(), modPath) {
+		return nil
+	}
+	tab := map[string]ssa.Value{}
+	ok := true
+	for _, fn := range w.ModFuncs {
+		isInit := fn.Synthetic != "" && fn.Name() == "init"
+		allInstrs(fn, func(in ssa.Instruction) {
+			st, isSt := in.(*ssa.Store)
+			if !isSt {
+				return
+			}
+			if st.Addr == ssa.Value(g) {
+				ok = false
+				return
+			}
+			if fa, isFA := st.Addr.(*ssa.FieldAddr); isFA && fa.X == ssa.Value(g) {
+				if !isInit {
+					ok = false
+					return
+				}
+				tab[fieldOfAddr(fa).Name()] = st.Val
+			}
+		})
+	}
+	if !ok || len(tab) == 0 {
+		return nil
+	}
+	return tab
 }
